@@ -103,14 +103,16 @@ def wire_line(spec, ops):
 
 # ------------------------------------------------------------------------------------------------ real code
 def observe(reg):
+    """-> (sorted list of (sample name, sorted labels, value bits), the (name, labels) sequence in collect order)"""
     out = []
     for fam in reg.collect():
         for s in fam.samples:
             if s.name.endswith('_created'):
                 continue
             out.append((s.name, tuple(sorted((str(k), str(v)) for k, v in s.labels.items())), lib.bits_of(s.value)))
+    seq = [(n, l) for n, l, _ in out]
     out.sort()
-    return out
+    return out, seq
 
 
 def build_real(spec, reg):
@@ -147,7 +149,7 @@ def do_real(m, op):
 
 
 def run_real(spec, ops):
-    """-> ('err', class) | ('ok', [(out, observation) per step, step 0 = construction])"""
+    """-> ('err', class) | ('ok', [(out, observation) per step, step 0 = construction], [sample sequence per step])"""
     from prometheus_client import validation
     from prometheus_client.registry import CollectorRegistry
     old = validation._legacy_validation
@@ -158,20 +160,44 @@ def run_real(spec, ops):
             m = build_real(spec, reg)
         except Exception as e:
             return ('err', type(e).__name__)
-        steps = [('ok', observe(reg))]
+        obs, seq = observe(reg)
+        steps = [('ok', obs)]
+        seqs = [seq]
         for op in ops:
             try:
                 do_real(m, op)
                 out = 'ok'
             except Exception as e:
                 out = type(e).__name__
-            steps.append((out, observe(reg)))
-        return ('ok', steps)
+            obs, seq = observe(reg)
+            steps.append((out, obs))
+            seqs.append(seq)
+        return ('ok', steps, seqs)
     finally:
         validation._legacy_validation = old
 
 
 # ------------------------------------------------------------------------------------------------ reference (oracle)
+def go_label(d):
+    """the `le` label text, computed WITHOUT the library's floatToGoString: Go's spelling of the bound — +Inf/-Inf/NaN,
+    repr(d) below one million and wherever repr already uses an exponent, and for plain reprs from one million up the
+    canonical mantissa/exponent form derived from the exact decimal expansion (as harness/props/c13.py go_expected)"""
+    from decimal import Decimal
+    if d != d:
+        return 'NaN'
+    if d == INF:
+        return '+Inf'
+    if d == -INF:
+        return '-Inf'
+    r = repr(d)
+    if d >= 1e6 and 'e' not in r:
+        sign, digits, exp = Decimal(r).as_tuple()
+        ds = ''.join(map(str, digits)).rstrip('0') or '0'
+        e10 = len(digits) + exp - 1
+        return '%se+%02d' % (ds[0] + ('.' + ds[1:] if len(ds) > 1 else ''), e10)
+    return r
+
+
 class Ref:
     """The property text as a program.  Cells are HISTORIES; values are read off them on demand."""
 
@@ -276,10 +302,9 @@ class Ref:
                 s = s + o
             return [('_count', {}, float(len(obs))), ('_sum', {}, s)]
         if k == 'histogram':
-            from prometheus_client.utils import floatToGoString
             out = []
             for b in self.bounds:
-                out.append(('_bucket', {'le': floatToGoString(b)}, float(sum(1 for o in obs if o <= b))))
+                out.append(('_bucket', {'le': go_label(b)}, float(sum(1 for o in obs if o <= b))))
             out.append(('_count', {}, float(sum(1 for o in obs if o <= INF))))
             if self.bounds[0] >= 0:
                 s = 0.0
@@ -313,6 +338,7 @@ class Ref:
         else:
             for suffix, labels, value in self.series(self.single):
                 out.append((self.name + suffix, tuple(sorted((str(a), str(b)) for a, b in labels.items())), lib.bits_of(value)))
+        self.seq = [(n, l) for n, l, _ in out]       # children in creation order, each child's samples in their fixed order
         out.sort()
         return out
 
@@ -326,6 +352,8 @@ def oracle(spec, ops, real):
     steps = real[1]
     if steps[0][1] != ref.observe():
         fails.append(('C01:initial-samples', 'fresh metric exposes %r, reference %r' % (steps[0][1], ref.observe()), 0))
+    elif real[2][0] != ref.seq:
+        fails.append(('C01:sample-order', 'fresh metric yields its samples in the order %r, reference %r' % (real[2][0][:6], ref.seq[:6]), 0))
     prev = steps[0][1]
     for i, op in enumerate(ops):
         out, obs = steps[i + 1]
@@ -346,6 +374,10 @@ def oracle(spec, ops, real):
                 fails.append(('C01:accepted-call-raised', 'step %d %r (%s) raised %s' % (i, op, note, out), i + 1))
             else:
                 fails.append(('C01:wrong-exception', 'step %d %r (%s) raised %s, expected %s' % (i, op, note, out, exp), i + 1))
+        if obs == want and real[2][i + 1] != ref.seq:
+            fails.append(('C01:sample-order', 'after step %d %r collect yields the samples in the order %r, the reference '
+                          '(children in creation order, samples of a child in their fixed order) %r'
+                          % (i, op, real[2][i + 1][:6], ref.seq[:6]), i + 1))
         if obs != want:
             if out != 'ok' and want == before:
                 fails.append(('C01:rejected-call-mutated', 'step %d %r raised %s and changed the exposed samples: %s'
@@ -384,7 +416,7 @@ def diff(obs, want):
 
 
 # ------------------------------------------------------------------------------------------------ model reply
-def parse_obs_list(field):
+def parse_obs_list(field, seqs=None):
     steps = []
     for part in field.split(';'):
         out, _, ss = part.partition('@')
@@ -398,6 +430,8 @@ def parse_obs_list(field):
                         k, v = kv.split('=')
                         d[lib.unhx(k)] = lib.unhx(v)          # dict(): a later duplicate key wins, as in _multi_samples
                 obs.append((lib.unhx(name), tuple(sorted(d.items())), int(val[2:])))
+        if seqs is not None:
+            seqs.append([(n, l) for n, l, _ in obs])
         obs.sort()
         steps.append((out, obs))
     return steps
@@ -755,7 +789,8 @@ class Batch:
             if f[0] != 'ok' or len(f) != 3:
                 ctx.diverge('constructor succeeded, model says %r' % rep[:80], case)
                 continue
-            model = parse_obs_list(f[1])
+            mseqs = []
+            model = parse_obs_list(f[1], mseqs)
             spec_obs = parse_obs_list(f[2])
             if model != real[1]:
                 k = next((i for i in range(min(len(model), len(real[1]))) if model[i] != real[1][i]), 0)
@@ -764,6 +799,10 @@ class Batch:
                 ctx.diverge('step %d (%r): implementation %s / %s, model %s / %s' % (
                     k - 1, ops[k - 1] if k else None, real[1][k][0], diff(real[1][k][1], model[k][1]), model[k][0], ''),
                     {'spec': spec, 'ops': small})
+            elif mseqs != real[2]:
+                k = next((i for i in range(min(len(mseqs), len(real[2]))) if mseqs[i] != real[2][i]), 0)
+                ctx.diverge('step %d: sample order differs: implementation %r, model %r' % (k - 1, real[2][k][:6], mseqs[k][:6]),
+                            {'spec': spec, 'ops': ops[:k]})
             if spec_obs != model:
                 k = next((i for i in range(min(len(model), len(spec_obs))) if model[i] != spec_obs[i]), 0)
                 if not hyp_violated(spec):
@@ -807,7 +846,7 @@ def run(ctx):
                 'remove, clear; amounts ordinary, >2^53, tiny, negative, +-Inf, NaN, ints (also ints that are no doubles: 2^53+1, 10^17+1, …, '
                 'before and after reset()), bools, on a bound and its neighbours); exhaustive = every word of length 3 (quick) / 4 (thorough) over a 12-call alphabet per type on a '
                 'two-label metric and of length 3 over a 9-call alphabet on the unlabelled metric; random to length 200; '
-                'observed after EVERY step; a history is non-trivial when some step changed the exposed samples; distinct by '
+                'observed after EVERY step (sorted samples with value bits, and the order-sensitive (name, labels) sequence); a history is non-trivial when some step changed the exposed samples; distinct by '
                 '(metric, history)')
     rng = ctx.rng
     b = Batch(ctx)
